@@ -3,8 +3,30 @@
 use super::pathlist;
 use crate::fam::Family;
 
+use std::sync::atomic::{AtomicU8, Ordering};
+
+/// The non-ASCII representative of every domain is 'é' (2 UTF-8 bytes). A "wide pass" re-runs the
+/// IRI half of a driver with that representative replaced by a 3-byte or a 4-byte character that is
+/// allowed in exactly the same places (ucschar): U+D7FF (last scalar before the surrogates) and
+/// U+10000 (first supplementary scalar). The width of a character is input state for every
+/// hand-written byte scanner.
+pub const WIDE_VARIANTS: [&str; 3] = ["é", "\u{D7FF}", "\u{10000}"];
+static WIDE: AtomicU8 = AtomicU8::new(0);
+
+pub fn set_wide(i: u8) {
+	assert!((i as usize) < WIDE_VARIANTS.len());
+	WIDE.store(i, Ordering::SeqCst);
+}
+
+pub fn wide() -> u8 {
+	WIDE.load(Ordering::Relaxed)
+}
+
 pub fn b(s: &str) -> Vec<u8> {
-	s.as_bytes().to_vec()
+	match wide() {
+		0 => s.as_bytes().to_vec(),
+		i => s.replace('é', WIDE_VARIANTS[i as usize]).into_bytes(),
+	}
 }
 
 /// Segment alphabet SEG. `level` 0 = structural core, 1 = quick, 2 = thorough.
